@@ -96,7 +96,7 @@ PROPS["C16"] = dict(level="exploration",
 
 PROPS["C19"] = dict(level="exploration",
     units=[Unit("c19_cancel", "harness/c19_cancel.cpp", cfg="d17", max_size=120, pin=True, shards=8,
-                quick=(30, 400000), thorough=(480, 20000000)),
+                quick=(45, 400000), thorough=(480, 20000000)),
            Unit("c19_canary", "harness/c19_canary.cpp", cfg="d17", max_size=100, pin=True, shards=8,
                 quick=(12, 400000), thorough=(200, 20000000)),
            Unit("c19_create", "harness/c19_create.cpp", cfg="d20", max_size=100, pin=True, shards=8,
